@@ -51,7 +51,7 @@ class Contract:
 
     def __init__(self, file, qual, params=None, result=None, requires=(), ensures=(), modifies=(), raises=None,
                  setup=(), reads=None, pure=False, allocates=True, doc="", ghost_results=None, cases=None,
-                 ghost_exit=()):
+                 ghost_exit=(), chain=False):
         self.file, self.qual = file, qual
         self.params = params or {}
         self.result = result
@@ -65,6 +65,7 @@ class Contract:
         self.ghost_results = ghost_results or {}
         self.cases = cases          # optional list of spec clauses: exhaustive case split of the pre-state
         self.ghost_exit = list(ghost_exit)   # ghost statements run at every normal exit (may only assign ghost state)
+        self.chain = chain                   # prove the ensures clauses in order, earlier ones usable as lemmas
 
     @property
     def cls(self):
@@ -1061,7 +1062,7 @@ class Engine:
                         state.env.pop(var, None)
                     else:
                         state.env[var] = saved
-                return self.quantify(k, z3.Implies(k >= 1, b))
+                return self.quantify(k, z3.Implies(k != 0, b))
             if n == "exists":
                 return znot(self.spec_forall(state, node, neg=True))
         if isinstance(node.func, ast.Name) and node.func.id == "super":
@@ -1134,7 +1135,7 @@ class Engine:
         """forall k. body, with explicit single-term triggers select(A, k) (A free of k) when the body has any"""
         kid = k.get_id()
         body = z3.simplify(body)       # triggers are taken from the normal form the solver will see
-        pats, seen, stack = {}, set(), [body]
+        pats, offs, seen, stack = {}, {}, set(), [body]
 
         def has_k(e):
             st2, sn = [e], set()
@@ -1171,11 +1172,16 @@ class Engine:
             seen.add(x.get_id())
             if z3.is_quantifier(x):
                 continue            # nested quantifiers get their own triggers
-            if z3.is_select(x) and x.arg(1).get_id() == kid and not has_k(x.arg(0)) and pat_ok(x.arg(0)):
-                pats[x.get_id()] = x
+            if z3.is_select(x) and not has_k(x.arg(0)) and pat_ok(x.arg(0)):
+                ix = x.arg(1)
+                if ix.get_id() == kid:
+                    pats[x.get_id()] = x
+                elif z3.is_add(ix) and ix.num_args() == 2 and any(c.get_id() == kid for c in ix.children()) and \
+                        any(z3.is_int_value(c) for c in ix.children()):
+                    offs[x.get_id()] = x        # select(A, k + c): secondary trigger
             stack.extend(x.children())
-        if pats:
-            return z3.ForAll([k], body, patterns=list(pats.values())[:6])
+        if pats or offs:
+            return z3.ForAll([k], body, patterns=(list(pats.values()) + list(offs.values()))[:8])
         return z3.ForAll([k], body)
 
     # ------------------------------------------------------------------ calls
@@ -2239,8 +2245,12 @@ class Engine:
                 env2.update(params)
                 env2["result"] = val
                 env2["$mark"] = self.alloc0
+                proved = []
                 for i, p in enumerate(con.ensures):
-                    self.oblige(s, self.eval_spec(s, p, env2, pre), "ensures[%d]" % i, fn, str(p))
+                    g = self.eval_spec(s, p, env2, pre)
+                    # post-conditions are proved in order; earlier ones may be used as lemmas for later ones
+                    self.oblige(s, g, "ensures[%d]" % i, fn, str(p), extra_hyps=list(proved) if con.chain else ())
+                    proved.append(g)
                 exits.append((s, oc, val))
             elif oc == Outcome.RAISE:
                 posts = None
